@@ -11,6 +11,9 @@ import (
 	"sort"
 	"strconv"
 	"strings"
+	"sync"
+	"sync/atomic"
+	"time"
 	"unicode"
 
 	"github.com/Query-farm/vgi-rpc-go/vgirpc"
@@ -34,6 +37,12 @@ import (
 //                                   real socket)
 //   rpc    x<custom> x<std> <route> a real route of the server: echo:<n> | badbody | health |
 //                                   landing | notfound
+//   burst  <n> <rounds> <zstd|gzip|mix|mixlv> <len> <seed>
+//                                   SEARCH family (no model): per round n concurrent requests with
+//                                   distinct large Arrow bodies, handlers held at a barrier so the
+//                                   compression phases overlap; mixlv also uses a second server at
+//                                   another level (the encoder pools are process-wide); every
+//                                   response goes through the lossless oracle
 // Model line for resp/rpc: "resp x<custom> x<std> x<ctype> <uncompressed body length>".
 
 func init() {
@@ -53,6 +62,8 @@ func init() {
 					continue
 				}
 				switch f[0] {
+				case "burst":
+					return true
 				case "parse", "choose", "resp", "rpc":
 					for _, a := range f[1:min(3, len(f))] {
 						if b, ok := UnX(a); ok {
@@ -265,6 +276,19 @@ func c17Gen(g *Gen) {
 		}
 		g.Case(lines...)
 	}
+	// (b2) overlapping responses: a search for a failing schedule (no model)
+	nBurst := g.N(10, 120)
+	for i := 0; i < nBurst; i++ {
+		var lines []string
+		if r.Chance(60) {
+			lines = append(lines, fmt.Sprintf("level %d", r.Range(1, 4)))
+		}
+		for k := 0; k < 2; k++ {
+			lines = append(lines, fmt.Sprintf("burst %d %d %s %d %d", r.Range(4, 16), r.Range(3, 5),
+				Pick(r, []string{"zstd", "gzip", "mix", "mixlv"}), Pick(r, []int{40000, 150000, 300000, 700000}), r.Intn(1<<30)))
+		}
+		g.Case(lines...)
+	}
 	// every level once, followed by plain offers of each codec on each header
 	for lv := -3; lv <= 13; lv++ {
 		ct := XS("application/vnd.apache.arrow.stream")
@@ -424,6 +448,37 @@ type c17Env struct {
 	// codecs the server really produces at the current level (probed), nil = not probed yet
 	produced   []string
 	producedOK bool
+	// burst family: bodies by request id, barrier of the current round, second server
+	h2       *vgirpc.HttpServer
+	level    int
+	burstMu  sync.Mutex
+	bodies   map[string][]byte
+	arrived  *int32
+	want     int32
+	released chan struct{}
+}
+
+func (e *c17Env) burstHandler() http.Handler {
+	return http.HandlerFunc(func(w http.ResponseWriter, r *http.Request) {
+		e.burstMu.Lock()
+		body := e.bodies[r.Header.Get("X-Burst-Id")]
+		arrived, want, released := e.arrived, e.want, e.released
+		e.burstMu.Unlock()
+		// barrier: hold every handler of the round until all have arrived, so the responses'
+		// compression phases (compressResponseWriter.finish, after the handler returns) overlap
+		if arrived != nil {
+			if atomic.AddInt32(arrived, 1) == want {
+				close(released)
+			}
+			select {
+			case <-released:
+			case <-time.After(5 * time.Second):
+			}
+		}
+		w.Header().Set("Content-Type", vgirpc.VerifC17ArrowContentType)
+		w.WriteHeader(200)
+		w.Write(body)
+	})
 }
 
 func c17NewEnv() *c17Env {
@@ -433,6 +488,8 @@ func c17NewEnv() *c17Env {
 		return strings.Repeat("a", int(p.N)), nil
 	})
 	e.h = vgirpc.NewHttpServer(s)
+	e.level = 1
+	e.h.VerifC17Handle("PUT /__verif_c17_burst__", e.burstHandler())
 	e.h.VerifC17Handle("PUT /__verif_c17__", http.HandlerFunc(func(w http.ResponseWriter, _ *http.Request) {
 		if e.ctype != "" {
 			w.Header().Set("Content-Type", e.ctype)
@@ -756,6 +813,9 @@ func c17Exec(c *Case) {
 			e := get()
 			n, _ := strconv.Atoi(f[1])
 			err := e.h.SetCompressionLevel(n)
+			if err == nil {
+				e.level = n
+			}
 			e.producedOK = false
 			r, rerr := e.do("OPTIONS", "/health", nil, nil, "rec")
 			adv := "!error"
@@ -854,8 +914,140 @@ func c17Exec(c *Case) {
 			model := fmt.Sprintf("resp %s %s %s %d", f[1], f[2], XS(ctype), len(base.body))
 			c.Stat("rpc-" + strings.SplitN(route, ":", 2)[0] + "-" + strconv.Itoa(r.status))
 			c.Out(model, e.checkResponse(c, l, custom, standard, ctype, base.body, deterministic, r))
+		case f[0] == "burst" && len(f) == 6:
+			e := get()
+			n, e1 := strconv.Atoi(f[1])
+			rounds, e2 := strconv.Atoi(f[2])
+			ln, e3 := strconv.Atoi(f[4])
+			seed, e4 := strconv.ParseUint(f[5], 10, 64)
+			if e1 != nil || e2 != nil || e3 != nil || e4 != nil || n < 1 || n > 64 || rounds < 1 || rounds > 50 || ln < 0 || ln > 4<<20 {
+				c.Out(l, "err:bad-op")
+				continue
+			}
+			c.Out(l, e.burst(c, l, n, rounds, f[3], ln, seed))
 		default:
 			c.Out(l, "err:bad-op")
 		}
 	}
+}
+
+// burstBody: distinct, compressible, recognisable per (seed, round, i).
+func c17BurstBody(seed uint64, round, i, ln int) []byte {
+	r := NewRng(seed*1000003 + uint64(round)*1009 + uint64(i)*17 + 1)
+	block := r.Bytes(61)
+	n := ln + i*1013 + round*7
+	b := make([]byte, n)
+	for k := range b {
+		b[k] = block[(k+k/61)%61]
+	}
+	if n >= 16 {
+		copy(b, fmt.Sprintf("ARROW r%03d i%03d ", round, i))
+	}
+	return b
+}
+
+// burst is a search for a failing schedule, not part of the model: overlapping responses
+// through the real ServeHTTP, each checked by the lossless oracle.
+func (e *c17Env) burst(c *Case, line string, n, rounds int, mode string, ln int, seed uint64) string {
+	servers := []*vgirpc.HttpServer{e.h}
+	if mode == "mixlv" {
+		if e.h2 == nil {
+			s := vgirpc.NewServer()
+			e.h2 = vgirpc.NewHttpServer(s)
+			e.h2.VerifC17Handle("PUT /__verif_c17_burst__", e.burstHandler())
+		}
+		e.h2.SetCompressionLevel(e.level%4 + 1)
+		servers = append(servers, e.h2)
+	}
+	bad, total := 0, 0
+	for round := 0; round < rounds; round++ {
+		bodies := map[string][]byte{}
+		ids := make([]string, n)
+		for i := 0; i < n; i++ {
+			ids[i] = fmt.Sprintf("%d-%d", round, i)
+			bodies[ids[i]] = c17BurstBody(seed, round, i, ln)
+		}
+		var arrived int32
+		e.burstMu.Lock()
+		e.bodies, e.arrived, e.want, e.released = bodies, &arrived, int32(n), make(chan struct{})
+		e.burstMu.Unlock()
+		type res struct {
+			which, val string
+			body       []byte
+		}
+		out := make([]res, n)
+		var wg sync.WaitGroup
+		for i := 0; i < n; i++ {
+			codec := mode
+			if mode == "mix" || mode == "mixlv" {
+				codec = []string{"zstd", "gzip"}[i%2]
+			}
+			srv := servers[(i/2)%len(servers)]
+			wg.Add(1)
+			go func(i int, codec string, srv *vgirpc.HttpServer) {
+				defer wg.Done()
+				defer func() {
+					// net/http would recover this per connection; here it must not take the harness down
+					if p := recover(); p != nil {
+						out[i] = res{"panic", fmt.Sprint(p), nil}
+					}
+				}()
+				req := httptest.NewRequest("PUT", "/__verif_c17_burst__", nil)
+				req.Header.Set("X-Burst-Id", ids[i])
+				if i%3 == 0 {
+					req.Header.Set(vgirpc.VerifC17AcceptEncodingHeader, codec)
+				} else {
+					req.Header.Set(vgirpc.VerifC17CustomAcceptEncodingHeader, codec)
+				}
+				rec := httptest.NewRecorder()
+				srv.ServeHTTP(rec, req)
+				r := rec.Result()
+				b, _ := io.ReadAll(r.Body)
+				w, v := c17Stamped(r.Header)
+				out[i] = res{w, v, b}
+			}(i, codec, srv)
+		}
+		wg.Wait()
+		for i := 0; i < n; i++ {
+			total++
+			want := bodies[ids[i]]
+			got := out[i].body
+			var err error
+			switch out[i].which {
+			case "none":
+			case "ce", "xce":
+				got, err = c17Decode(out[i].val, out[i].body)
+			case "panic":
+				err = fmt.Errorf("ServeHTTP panicked while compressing: %s", out[i].val)
+			default:
+				err = fmt.Errorf("both encoding headers stamped")
+			}
+			if err != nil || !bytes.Equal(got, want) {
+				bad++
+				what := fmt.Sprintf("decoded %d bytes, want %d", len(got), len(want))
+				if err != nil {
+					what = "decode failed: " + err.Error()
+				} else if len(got) >= 16 && len(want) >= 16 && !bytes.Equal(got[:16], want[:16]) {
+					what += fmt.Sprintf(" (carries %q, the payload of another response; want %q)", got[:16], want[:16])
+				}
+				if bad <= 3 {
+					c.Oracle("overlapping-response-not-lossless", fmt.Sprintf("%s: round %d request %d (%s=%q, %d wire bytes): %s", line, round, i, out[i].which, out[i].val, len(out[i].body), what))
+				}
+			}
+			if out[i].which == "panic" {
+				c.Stat("burst-panic")
+			} else if out[i].which != "none" {
+				c.Stat("burst-compressed-" + out[i].val)
+			} else {
+				c.Stat("burst-uncompressed")
+			}
+		}
+	}
+	e.burstMu.Lock()
+	e.arrived = nil
+	e.burstMu.Unlock()
+	if bad > 0 {
+		return fmt.Sprintf("burst corrupted %d/%d", bad, total)
+	}
+	return "burst lossless"
 }
